@@ -1,6 +1,21 @@
 from vf import Job, SAFETY
 NOCONV = [x for x in SAFETY if x != "--conversion-check"]
 IO = ["fwrite:verif_fwrite", "read:verif_read", "lseek:verif_lseek", "mmap:verif_mmap", "close:verif_close", "exit:verif_exit", "malloc:verif_malloc_g"]
+# ---- loop contracts for dr_pi_dag_set_edge_ptrs (goto order: 0 = inner while (i < u), 1 = for (j), 2 = tail while (i < n - 1))
+def PB(jj): return "(0 <= LN[g_w].edges_begin && LN[g_w].edges_begin <= %s && (m == 0 || ((LN[g_w].edges_begin <= g_k) == (LE[g_k].u >= g_w))))" % jj
+def PE(jj): return ("(LN[g_w].edges_begin <= LN[g_w].edges_end && LN[g_w].edges_end <= %s && (m == 0 || ((g_k < LN[g_w].edges_end) == (LE[g_k].u <= g_w))) "
+                    "&& LN[g_w + 1].edges_begin == LN[g_w].edges_end)" % jj)
+SEEN = "(m == 0 || g_k >= j || LE[g_k].u <= i)"          # every edge already passed has its source <= i
+SM = "i,dr_pi_dag_set_edge_ptrs::1::i;j,dr_pi_dag_set_edge_ptrs::1::j;m,dr_pi_dag_set_edge_ptrs::1::m;n,dr_pi_dag_set_edge_ptrs::1::n;u,dr_pi_dag_set_edge_ptrs::1::1::1::u"
+L_EP = {"dr_pi_dag_set_edge_ptrs": [
+  dict(loop_id="0", assigns="i, __CPROVER_object_whole(LN)", symbol_map=SM,
+       invariants="0 <= j && j < m && u == LE[j].u && 0 <= i && i < n && __CPROVER_loop_entry(i) <= i && " + SEEN +
+                  " && (g_w <= i ==> " + PB("j") + ") && (g_w < i ==> " + PE("j") + ")"),
+  dict(loop_id="1", assigns="i, j, __CPROVER_object_whole(LN)", symbol_map=SM,
+       invariants="0 <= j && j <= m && 0 <= i && i < n && " + SEEN + " && (g_w <= i ==> " + PB("j") + ") && (g_w < i ==> " + PE("j") + ")"),
+  dict(loop_id="2", assigns="i, __CPROVER_object_whole(LN)", symbol_map=SM,
+       invariants="j == m && 0 <= i && i <= n - 1 && (m == 0 || LE[g_k].u <= i) && (g_w <= i ==> " + PB("m") + ") && (g_w < i ==> " + PE("m") + ")"),
+]}
 JOBS = [
   Job("c19.file.layout", "c19_file.c", "h_file_layout", replace_calls=IO,
       cbmc=["--unwind", "47", "--unwinding-assertions", "--sat-solver", "cadical"], safety=NOCONV, fuc=["dr_pi_dag_dump", "dr_read_dag"], timeout=200,
@@ -9,5 +24,14 @@ JOBS = [
       replace_calls=["malloc:verif_malloc_st", "strlen:verif_strlen", "strcpy:verif_strcpy", "exit:verif_exit"],
       cbmc=["--unwind", "10", "--unwinding-assertions", "--sat-solver", "cadical"], fuc=["dr_string_table_flatten", "dr_pi_dag_set_string_table"], timeout=200,
       note="bounded: at most 8 strings"),
+  Job("c19.edge_cmp.lemmas", "c19_edges.c", "h_edge_cmp_lemmas", replace_calls=["exit:verif_exit"], fuc=["edge_cmp"], timeout=100,
+      note="complete: loop-free, all values of (u, v) and of the kinds"),
+  Job("c19.set_edge_ptrs.bounded", "c19_edges.c", "h_set_edge_ptrs", kind="bounded", replace_calls=["exit:verif_exit"],
+      cbmc=["--unwind", "10", "--unwinding-assertions", "--sat-solver", "cadical"], fuc=["dr_pi_dag_set_edge_ptrs", "edge_cmp"], timeout=200,
+      note="bounded: at most 6 nodes and 8 edges (all loops unwound); every sorted edge array with sources in [0, n), every node, every edge index"),
+  Job("c19.set_edge_ptrs.loops", "c19_edges.c", "h_set_edge_ptrs_lc", kind="bounded", replace_calls=["exit:verif_exit"],
+      loops=L_EP, loop_counts={"dr_pi_dag_set_edge_ptrs": 3}, cbmc=["--unwind", "40", "--unwinding-assertions", "--sat-solver", "cadical"],
+      fuc=["dr_pi_dag_set_edge_ptrs"], timeout=250,
+      note="loop contracts on the three loops of the function (nothing unwound in it); bounded only by the harness arrays: n <= 16 nodes, m <= 32 edges"),
 ]
 META = {"level": "other", "assumptions": []}
